@@ -36,6 +36,10 @@ OPS = [
     ['set', 'int', 's', 5, None], ['set', 'str', 'i', 'x', None], ['set', 'int', 'nosuch', 1, None], ['set', 'float', 'i', 1.0, None],
     ['set', 'int', 'sec=t1|x', 3, None], ['set', 'int', 'one|z', 4, None], ['addlist', 'sec=t1|xl', 'int', [5]], ['set', 'int', 'sec=t2|xl', 6, 1],
     ['set', 'int', 'sec|x', 2, None],
+    # titles that differ only in letter case are different titles (the context is not case-insensitive)
+    ['addtsec', 'sec', 'T1'], ['rmtsec', 'sec', 'T1'], ['rmsec', 'sec=T1'], ['set', 'int', 'sec=T1|x', 6, None],
+    # the new value aliases a value the option already stores
+    ['selfstr', 's', 0, 0], ['selfstr', 'sl', 0, 1], ['selfstr', 'sl', 1, 2], ['selfstr', 'sl', 0, 0],
 ]
 
 RULE = ('all call sequences up to depth N over %d concrete calls (typed setters at index 0/1/2/3, setlist, addlist, setmulti good/bad, setopt, '
@@ -143,6 +147,8 @@ def judge(spec, events, death):
                 v.skipped = True
             break
         oname = op[2] if op[0] == 'set' else op[1]
+        if op[0] == 'selfstr':
+            oname = op[1]
         if rc_of(r) != exp:
             v.bad('%s(%s):return' % (op[0], oname), 'start %s, after %s: %r returned %s, the store model says %s' % (
                 spec['start'], ops[:n], op, r['rc'], exp))
